@@ -12,7 +12,7 @@ from selftest import autotwins
 
 def job(args):
     name, ov, prop = args
-    v, rep = analyse_variant(prop, ov)
+    v, rep = analyse_variant(prop, ov, inherited_known=True)
     if v == "holds":
         return name, prop, v, []
     detail = [rep] if isinstance(rep, str) else [f"{i.verdict} {i.rule} {i.site} {i.function}: {i.why[:160]}" for i in rep.instances if i.verdict not in ("HOLDS", "KNOWN")][:4]
